@@ -124,13 +124,12 @@ def rule_none(program, ctx):
         for u in uses:
             # `x and x.attr` inside one expression
             inline = False
-            for anc in ancestors(u):
-                if isinstance(anc, ast.BoolOp) and isinstance(anc.op, ast.And):
-                    idx = next((i for i, v in enumerate(anc.values) if any(w is u for w in ast.walk(v))), None)
-                    if idx and any(isinstance(v, ast.Name) and v.id == name for v in anc.values[:idx]):
-                        inline = True
-                if isinstance(anc, ast.stmt):
-                    break
+            from ..core import enclosing_stmt as _es
+            from ..lib import guard_atoms as _ga
+            # short-circuit guards inside the expression, whatever their spelling (`x and x.a`, `not x or not x.a`, `… if x else …`)
+            for e_, pol_ in _ga(u, stop=_es(u)):
+                if pred(e_, pol_):
+                    inline = True
             if inline:
                 guarded_somewhere = True
                 ctx.ok(rid, u, f"`{name}.{u.attr}` guarded inline by `{name} and …`")
